@@ -124,6 +124,8 @@ def invalid_message(res):
 def random_de(rng, i, kind="any"):
     if rng.random() < 0.6:
         inp = rng.choice([None, "", "abc", "2022-01-01T00:00:00Z"])
+        if rng.random() < 0.12:
+            inp = rng.choice([" ", "\t ", "\n"])   # entered, though only white space: an input is filled iff it is a non-empty text
         vt = rng.choice([None, "TEXT", "DATETIME"])
         return ("F", f"de{i}", ahb_expr(rng, kind), inp, vt)
     n = rng.choices([0, 1, 2, 3, 4], [1, 3, 5, 4, 2])[0]
